@@ -16,7 +16,8 @@ reference already rejects (nothing after the first rejected line is read).
 Real code: a ConfigLoader whose openResource serves the generated resources
 from memory, loaded twice with the same loader and schema object; a
 deterministic sample (and every history of up to 2 items) is also written to
-a temp directory and loaded twice with ZConfig.loadConfig(schema, path).
+a temp directory and loaded twice with ZConfig.loadConfig(schema, path).  After the two loads a third text that only
+uses the three names is loaded with the same loader: nothing may be left over.
 Observation: the values of all keys, or exception class, resource and line.
 """
 import io
@@ -150,11 +151,21 @@ def _outcome(fn):
     return ("ok", {k: list(v) for k, v in cfg.kv.items()})
 
 
+PROBE_NAME = "zz-probe.conf"
+PROBE_LINES = ["p%d <$%s>" % (n, b) for n, b in enumerate(BASES)]
+
+
 def real_memory(files):
     ld = _mem_loader(files)
     first = _outcome(lambda: ld.loadURL(BASE_URL + "main.conf"))
     second = _outcome(lambda: ld.loadURL(BASE_URL + "main.conf"))
-    return first, second
+    # a DIFFERENT text loaded with the same loader afterwards: it uses the three names and defines
+    # none, so a namespace that survived the earlier loads would show (the statement: a new, empty
+    # namespace per load)
+    ld.files = dict(files)
+    ld.files[PROBE_NAME] = PROBE_LINES
+    third = _outcome(lambda: ld.loadURL(BASE_URL + PROBE_NAME))
+    return first, second, third
 
 
 def real_files(files, tmpdir):
@@ -252,9 +263,17 @@ def evaluate(col, seq, tmpdir, seed, sample_mod, files=None):
            if seq is not None else None,
            "resources": files}
     exp, defs = _reference(files)
-    first, second = real_memory(files)
-    col.evaluations += 2
+    first, second, third = real_memory(files)
+    col.evaluations += 3
     compare(col, files, exp, defs, first, "memory", inp)
+    if not all(b in os.environ for b in BASES):
+        pexp = T.run_defines({PROBE_NAME: PROBE_LINES}, PROBE_NAME, env=os.environ)
+        if not _matches(pexp, third):
+            col.violation("C05:namespace-survives-the-load",
+                          "a text that only USES the names, loaded afterwards with the same loader, does not "
+                          "behave as it does with a new namespace", inp,
+                          ["ok", pexp[1]] if pexp[0] == "ok" else ["error", list(pexp[1]), pexp[2], pexp[3], pexp[4]],
+                          list(third))
     if second != first:
         col.violation("C05:second-load-differs",
                       "the same text loaded again with the same loader and "
